@@ -504,7 +504,10 @@ def class_families():
     """(name, spec, maker, reloadable): the C05 families round-trip by construction, the extra C06 ones
     (one-way sweeteners, _yatiml_attributes) are only checked for validity and content"""
     rt = {n for n, s, m in dumpcat.structured_families()}
-    return [(n, s, m, n in rt) for n, s, m in C06.families() if dumpcat.tree_shaped(n)]
+    # JSON has no spelling for non-finite floats (outside the property's domain): the families whose sweeteners write
+    # inf / nan themselves are left to C06
+    return [(n, s, m, n in rt) for n, s, m in C06.families()
+            if dumpcat.tree_shaped(n) and n != 'sweeten-writes-floats' and not n.endswith((':inf', ':nan'))]
 
 
 def units(tier):
